@@ -162,7 +162,7 @@ func runC20BT(c C20BTCase, ev *vt.Ev) *vt.Failure {
 			}
 			what = fmt.Sprintf("ReadRows whose client disconnects at message %d", p.FailSend)
 			at := p.FailSend
-			res, returned = withWatchdog(20*time.Second, func() *bt.Result {
+			res, returned = withWatchdog(60*time.Second, func() *bt.Result {
 				return s.ExecCtx(context.Background(), &bt.Op{K: "ReadRows", Table: "big"}, func(n int) error {
 					if n >= at {
 						return fmt.Errorf("rpc error: code = Canceled desc = client went away")
@@ -173,12 +173,12 @@ func runC20BT(c C20BTCase, ev *vt.Ev) *vt.Failure {
 			labels["client-disconnect-during-scan"] = true
 		} else if p.Op != nil {
 			what = "structural " + p.Op.K
-			res, returned = withWatchdog(20*time.Second, func() *bt.Result { return s.Exec(p.Op) })
+			res, returned = withWatchdog(60*time.Second, func() *bt.Result { return s.Exec(p.Op) })
 			labels["structural:"+p.Op.K] = true
 		} else {
 			what = "byte-level " + p.RPC
 			ok := true
-			res, returned = withWatchdog(20*time.Second, func() *bt.Result {
+			res, returned = withWatchdog(60*time.Second, func() *bt.Result {
 				r, o := s.ExecRaw(context.Background(), p.RPC, p.Raw.B())
 				ok = o
 				return r
@@ -190,7 +190,7 @@ func runC20BT(c C20BTCase, ev *vt.Ev) *vt.Failure {
 			labels["bytes:"+p.RPC] = true
 		}
 		if !returned {
-			return vt.Failf("C20", "probe %d (%s) did not return within 20s (hang)", i, what)
+			return vt.Failf("C20", "probe %d (%s) did not return within 60s (hang)", i, what)
 		}
 		reached++
 		if res.Panic != "" {
@@ -216,7 +216,7 @@ func runC20BT(c C20BTCase, ev *vt.Ev) *vt.Failure {
 
 func TestC20BT(t *testing.T) {
 	vt.Prop[C20BTCase]{ID: "C20", Test: "TestC20BT",
-		Rule: "Bigtable: after a drawn valid setup program, 1-12 probes per case on 3 engines: ReadRows whose client disconnects in the middle of a multi-message stream, structure-level perturbations of every implemented RPC (unset oneofs / sub-messages, MinInt/MaxInt/negative numbers, empty and 64 KiB names and keys, missing tables, duplicated entries, 0 or 200 sub-filters, NaN/Inf sample probability, 10^4 ranges, catastrophic regexes) and byte-level mutations (flip, insert, delete, truncate, splice) of marshalled valid/hostile requests, sent to the right or a wrong RPC (only bytes that proto.Unmarshal accepts reach a handler, as with gRPC); oracle: no panic, a gRPC status, the call returns within 20s, and afterwards the canary table reads back identical, ListTables shows it and a fresh write+read works; non-trivial = at least one perturbed request reached a handler",
+		Rule: "Bigtable: after a drawn valid setup program, 1-12 probes per case on 3 engines: ReadRows whose client disconnects in the middle of a multi-message stream, structure-level perturbations of every implemented RPC (unset oneofs / sub-messages, MinInt/MaxInt/negative numbers, empty and 64 KiB names and keys, missing tables, duplicated entries, 0 or 200 sub-filters, NaN/Inf sample probability, 10^4 ranges, catastrophic regexes) and byte-level mutations (flip, insert, delete, truncate, splice) of marshalled valid/hostile requests, sent to the right or a wrong RPC (only bytes that proto.Unmarshal accepts reach a handler, as with gRPC); oracle: no panic, a gRPC status, the call returns within 60s, and afterwards the canary table reads back identical, ListTables shows it and a fresh write+read works; non-trivial = at least one perturbed request reached a handler",
 		Gen:  genC20BT(), Run: runC20BT}.Main(t)
 }
 
@@ -313,8 +313,8 @@ func runC20Mix(c C20MixCase, ev *vt.Ev) *vt.Failure {
 	go func() { wg.Wait(); close(done) }()
 	select {
 	case <-done:
-	case <-time.After(60 * time.Second):
-		return vt.Failf("C20", "concurrent mix did not finish within 60s (hang / deadlock)")
+	case <-time.After(180 * time.Second):
+		return vt.Failf("C20", "concurrent mix did not finish within 180s (hang / deadlock)")
 	}
 	if firstPanic != "" {
 		return vt.Failf("C20", "%s", firstPanic)
@@ -328,6 +328,6 @@ func runC20Mix(c C20MixCase, ev *vt.Ev) *vt.Failure {
 
 func TestC20BTMix(t *testing.T) {
 	vt.Prop[C20MixCase]{ID: "C20", Test: "TestC20BTMix",
-		Rule: "Bigtable, under the Go race detector: 4-8 goroutines x 5-40 direct calls with the wire round-trip (the response marshal after return is what races with schema changes in the real server): create / delete / re-create table while reading and writing it, ModifyColumnFamilies while GetTable / ReadRows / MutateRow, DropRowRange(all / prefix) during multi-message scans, consistency-token RPCs, SampleRowKeys; oracle: no race report, no panic or fatal runtime error (the shard process must exit normally), all calls return within 60s, streams well formed, canary data intact; non-trivial = >=40 calls completed",
+		Rule: "Bigtable, under the Go race detector: 4-8 goroutines x 5-40 direct calls with the wire round-trip (the response marshal after return is what races with schema changes in the real server): create / delete / re-create table while reading and writing it, ModifyColumnFamilies while GetTable / ReadRows / MutateRow, DropRowRange(all / prefix) during multi-message scans, consistency-token RPCs, SampleRowKeys; oracle: no race report, no panic or fatal runtime error (the shard process must exit normally), all calls return within 180s, streams well formed, canary data intact; non-trivial = >=40 calls completed",
 		Gen:  genC20Mix(), Run: runC20Mix}.Main(t)
 }
